@@ -144,6 +144,70 @@ impl Index {
 	}
 }
 
+impl Index {
+	/// Every simple cycle of 1..=lmax edges (a self-loop of a one-node-set graph is a 1-cycle), each
+	/// found once, as the edge indices IN WALK ORDER starting at the cycle's lowest-indexed edge.
+	/// At most `cap` cycles are returned.
+	pub fn cycles_upto(&self, lmax: usize, cap: usize) -> Vec<Vec<usize>> {
+		let mut res = vec![];
+		let mut path: Vec<(usize, u8)> = vec![];
+		let mut juncs: Vec<Node> = vec![];
+		for s in 0..self.edges.len() {
+			if res.len() >= cap {
+				break;
+			}
+			path.clear();
+			juncs.clear();
+			path.push((s, 0));
+			self.dfs_upto(s, lmax, cap, &mut path, &mut juncs, &mut res);
+		}
+		res
+	}
+
+	fn dfs_upto(&self, s: usize, lmax: usize, cap: usize, path: &mut Vec<(usize, u8)>, juncs: &mut Vec<Node>, res: &mut Vec<Vec<usize>>) {
+		if res.len() >= cap {
+			return;
+		}
+		let (li, lo) = *path.last().unwrap();
+		let x = self.exit(li, lo);
+		let want = partner(self.var, x);
+		let j = junction(self.var, x);
+		let start_j = junction(self.var, self.entry(s, 0));
+		if juncs.contains(&j) {
+			return;
+		}
+		if want == self.entry(s, 0) {
+			res.push(path.iter().map(|(i, _)| *i).collect());
+		}
+		if j == start_j || path.len() == lmax {
+			return;
+		}
+		if let Some(c) = self.by_entry.get(&want) {
+			for &(i, o) in c {
+				if i <= s || path.iter().any(|(p, _)| *p == i) {
+					continue;
+				}
+				path.push((i, o));
+				juncs.push(j);
+				self.dfs_upto(s, lmax, cap, path, juncs, res);
+				juncs.pop();
+				path.pop();
+			}
+		}
+	}
+
+	/// junctions touched by a set of edges
+	pub fn junctions_of(&self, es: &[usize]) -> Vec<Node> {
+		let mut r = vec![];
+		for i in es {
+			let (a, b) = ports(self.var, &self.edges[*i]);
+			r.push(junction(self.var, a));
+			r.push(junction(self.var, b));
+		}
+		r
+	}
+}
+
 /// Do exactly these edges form one simple cycle through all of them?
 pub fn is_simple_cycle(var: Variant, edges: &[Edge]) -> bool {
 	let mut e = edges.to_vec();
